@@ -282,7 +282,7 @@ def run(chk):
     import os
     only = getattr(chk, "only", None)
     if not only or "proof" in only:
-        chk.guard(run_gap_traceback)
+        chk.guard(run_gap_traceback, fallback=[_replay])
         chk.discharge()
     chk.assume("proof tier covers gap_traceback only; IndelMap.from_aligned_segments, Aligned and the dynamic program "
                "(numba float kernels, Viterbi optimality) are not decided by proof")
